@@ -23,6 +23,12 @@ claimed["C17"]=dict(
    text="For every payload, flags, sequence number, key and usage: Marshal == RFC 4121 4.2.6 layout, Unmarshal accepts exactly well-formed tokens of the expected direction and returns their fields, the checksum input is {payload | header with EC=RRC=0}, Verify succeeds only if the token checksum equals the checksum of the presented fields.",
    note="Trusted: et_cksum is uninterpreted (C07 relates it to the HMAC composition); MAC assumption for 'every bit matters'; binary.BigEndian and hmac.Equal models.",
    design="4/C17")
+claimed["C07"]=dict(
+   technique="contract-based deductive verification: the RFC checksum compositions as spec functions over uninterpreted HMAC/hash primitives; postconditions on the real GetChecksumHash/VerifyChecksum/Checksum functions and the etype interface contract, byte-sequence abstraction with engine-generated sequence facts; discharged by z3/cvc5 via gowp",
+   category="proof",
+   text="For every key, usage and data the six checksum implementations return exactly the RFC-defined value (simplified-profile HMAC with Kc = DK(key, usage|0x99), truncated; RFC 4757 HMAC-MD5 with the Microsoft usage mapping), verification returns true only for that exact value, and checksum type ids select the IANA-assigned family.",
+   note="Trusted: HMAC/hash uninterpreted; hash.Hash / hmac.New ghost-content models; DK taken at the level of the etype DeriveKey contract (C08 relates it further); MAC assumption for the negative clauses.",
+   design="4/C07")
 hooks=subprocess.run("git -C /repo log --format='%H %s' | grep ' verif:' | awk '{print $1}'",shell=True,capture_output=True,text=True).stdout.split()
 m={"version":1,
  "setup_cmd":"./setup.sh",
